@@ -22,6 +22,8 @@ import traceback
 VERIF = os.path.dirname(os.path.dirname(os.path.abspath(__file__)))
 REPO_ROOT = os.environ.get("VERIF_REPO_ROOT", "/repo")
 GUARD = "SPEC_CLASSES_VERIF"
+# evidence/ and replays/ are written under OUT (default /verif); mutation experiments redirect it
+OUT = os.environ.get("VERIF_OUT", VERIF)
 
 
 # ------------------------------------------------------------------------------------------------
@@ -191,7 +193,7 @@ class Run:
                         else:
                             self.extra[k].setdefault(kk, vv)
                 elif isinstance(v, (int, float)) and isinstance(self.extra.get(k), (int, float)):
-                    self.extra[k] += v
+                    self.extra[k] = max(self.extra[k], v) if k.startswith("max_") else self.extra[k] + v
                 elif isinstance(v, list) and isinstance(self.extra.get(k), list):
                     for it in v:
                         if it not in self.extra[k]:
@@ -248,7 +250,7 @@ class Run:
         for idx, n in sorted(self.known_hits.items()):
             e = self.findings.entries[idx]
             print(f"KNOWN-FINDING: property={self.prop} {e.get('what_fails', '')} [{n} matching cases]")
-        rdir = os.path.join(VERIF, "replays", self.prop)
+        rdir = os.path.join(OUT, "replays", self.prop)
         for v in confirmed:
             h = short_hash(v["sig"])
             if h in printed and len(printed) >= 10:
@@ -289,11 +291,11 @@ class Run:
             "wall_s": round(wall, 2),
             "violations": len(self.violations),
         }
-        os.makedirs(os.path.join(VERIF, "evidence"), exist_ok=True)
-        tmp = os.path.join(VERIF, "evidence", f".{self.prop}.json.tmp")
+        os.makedirs(os.path.join(OUT, "evidence"), exist_ok=True)
+        tmp = os.path.join(OUT, "evidence", f".{self.prop}.json.tmp")
         with open(tmp, "w") as fh:
             json.dump(jsonable(ev), fh, indent=1, sort_keys=True)
-        os.replace(tmp, os.path.join(VERIF, "evidence", f"{self.prop}.json"))
+        os.replace(tmp, os.path.join(OUT, "evidence", f"{self.prop}.json"))
 
 
 # ------------------------------------------------------------------------------------------------
